@@ -153,8 +153,9 @@ def run(tier, replay):
         ed = "/repo/eqlog-test-compile/error-test-source"
         if os.path.isdir(ed):
             for f in sorted(os.listdir(ed)):
-                if f.endswith(".eql"):
-                    sources["errors/" + f] = (open(os.path.join(ed, f)).read(), False)
+                tf = os.path.join(ed, f, "theory.eql")
+                if os.path.exists(tf):
+                    sources["errors/" + f] = (open(tf).read(), False)
         for name, (text, valid) in sources.items():
             ms = mutants(name, text, rnd, 25 if thorough else 4)
             if not valid:
